@@ -56,6 +56,7 @@ func TestC16(t *testing.T) {
 		}
 		if p.PreTest {
 			pcfg["preTestServe"] = true
+			pcfg["preTestSync"] = p.PreTestSync
 		}
 		if p.Chatter {
 			pcfg["chatterAfterMs"] = 250
